@@ -104,57 +104,103 @@ class Impl:
             sys.settrace(None)
         return got, st, box.get("obs")
 
-    def emit(self, rots, separate=True):
-        """separate=False: no Hadamard between the calls; returns the whole emitted run
-        [(mnemonic, n, d)] (or None if the SDK raised, e.g. at flush()).
-        rots: [dict(axis 'X'|'Y'|'Z', n, d, angle)] where n, d, angle may be absent (= not passed).
-        Builds a real connection, applies the rotations to one qubit with a Hadamard after
-        each one as a separator, flushes, decodes the committed bytes again and returns one
-        segment [(mnemonic, n, d)] per rotation call, or None if the SDK raised."""
+    def emit(self, rots, separate=True, cfg=("generic", False)):
+        """rots: [dict(axis 'X'|'Y'|'Z', n, d, angle)] where n, d, angle may be absent (= not passed).
+        cfg = (config, hw): config 'generic' (default DebugConnection), 'nvhw'
+        (hardware_config=NVHardwareConfig(5)), 'nvcompiler' (compiler=NVSubroutineTranspiler; the committed
+        bytes are then decoded with the NV flavour, i.e. AFTER the transpiler); hw = value given to
+        netqasm.runtime.settings.set_is_using_hardware for the duration of the program (reset to False).
+        Builds a real connection, applies the rotations to one qubit, flushes, decodes the committed
+        bytes again.  separate=True: one segment [(mnemonic, n, d)] per call (a Hadamard after each call is
+        the separator; under 'nvcompiler', where a Hadamard itself becomes rotations, one connection per
+        call); separate=False: the whole emitted run.  None if the SDK raised (e.g. at flush()).
+        self.last_pending: the rotation commands pending in the builder just before flush (the stream
+        BEFORE assembling / transpiling), per connection concatenated."""
         SubroutineMessage, deserialize_host_msg, deserialize, Base, Debug, Qubit, SMM = self._b
+        from netqasm.lang.instr.flavour import NVFlavour
+        from netqasm.runtime import settings
+        from netqasm.sdk.build_types import NVHardwareConfig
+        from netqasm.sdk.transpile import NVSubroutineTranspiler
+        config, hw = cfg
+        self.last_pending = None
 
-        def go():
+        def conn_stream(calls, with_h):
             SMM.reset_memories()
             Base._app_ids.clear()
             Debug.node_ids = {"Alice": 0}
-            conn = Debug("Alice")
+            kw = {}
+            if config == "nvhw":
+                kw["hardware_config"] = NVHardwareConfig(5)
+            elif config == "nvcompiler":
+                kw["compiler"] = NVSubroutineTranspiler
+            conn = Debug("Alice", **kw)
             with conn:
                 q = Qubit(conn)
-                for r in rots:
-                    kw = {k: r[k] for k in ("n", "d", "angle") if k in r and not (k == "angle" and r[k] is None)}
-                    getattr(q, "rot_" + r["axis"])(**kw)
-                    if separate:
+                for r in calls:
+                    a = {k: r[k] for k in ("n", "d", "angle") if k in r and not (k == "angle" and r[k] is None)}
+                    getattr(q, "rot_" + r["axis"])(**a)
+                    if with_h:
                         q.H()
-                try:   # best effort, for the replay only: what is about to be flushed
-                    self.last_pending = [[c.instruction.name.lower(), c.operands[1], c.operands[2]]
-                                         for c in conn.builder._pending_commands
-                                         if hasattr(c, "instruction") and c.instruction.name.startswith("ROT_")]
+                try:   # best effort: what is about to be flushed
+                    pend = [[c.instruction.name.lower(), c.operands[1], c.operands[2]]
+                            for c in conn.builder._pending_commands
+                            if hasattr(c, "instruction") and c.instruction.name.startswith("ROT_")]
+                    self.last_pending = (self.last_pending or []) + pend
                 except Exception:  # noqa: BLE001
-                    self.last_pending = None
+                    pass
                 conn.flush()
-            segs, cur = [], []
+            toks = []
             for raw in conn.storage:
                 m = deserialize_host_msg(raw)
                 if isinstance(m, SubroutineMessage):
-                    for i in deserialize(m.subroutine).instructions:
+                    sub = deserialize(m.subroutine, flavour=NVFlavour()) if config == "nvcompiler" else deserialize(m.subroutine)
+                    for i in sub.instructions:
                         if i.mnemonic.startswith("rot_"):
-                            cur.append((i.mnemonic, int(i.angle_num.value), int(i.angle_denom.value)))
+                            toks.append((i.mnemonic, int(i.angle_num.value), int(i.angle_denom.value)))
                         elif i.mnemonic == "h":
-                            segs.append(cur)
-                            cur = []
+                            toks.append("h")
+            return toks
+
+        def go():
             if not separate:
-                return cur
+                return [t for t in conn_stream(rots, False) if t != "h"]
+            if config == "nvcompiler":
+                return [conn_stream([r], False) for r in rots]
+            segs, cur = [], []
+            for t in conn_stream(rots, True):
+                if t == "h":
+                    segs.append(cur)
+                    cur = []
+                else:
+                    cur.append(t)
             if cur or len(segs) != len(rots):
                 raise RuntimeError("separator instructions do not match the calls")
             return segs
 
         import logging
         logging.disable(logging.CRITICAL)
+        settings.set_is_using_hardware(bool(hw))
         try:
             st, v = guarded(go)
         finally:
+            settings.set_is_using_hardware(False)
             logging.disable(logging.NOTSET)
         return v if st == "ok" else None
+
+
+CONFIGS = [("generic", False), ("generic", True), ("nvhw", False), ("nvhw", True), ("nvcompiler", False), ("nvcompiler", True)]
+
+
+def hw_expected(cfg, steps):
+    """What the unchanged tree defines for the steps [(n, d)] of one call under cfg:
+    ('same', steps) everywhere except compiler=NVSubroutineTranspiler with is_using_hardware = True, where the
+    transpiler (get_hardware_num_denom) rescales every step to denominator exponent 4, (n * 2^(4-d), 4), and
+    raises ValueError for a step with d > 4 (and for an n/d-only call whose rescaled numerator exceeds 255): ('refuse', None)."""
+    if cfg == ("nvcompiler", True):
+        if any(d > 4 or n * 2 ** (4 - d) > 255 for n, d in steps):
+            return "refuse", None     # d > 4: ValueError in get_hardware_num_denom; n*2^(4-d) > 255: not encodable
+        return "same", [[n * 2 ** (4 - d), 4] for n, d in steps]
+    return "same", [list(x) for x in steps]
 
 
 # --------------------------------------------------------------------- oracle
@@ -296,6 +342,10 @@ def gen_builder_cases(rng, n):
             out.append([dict(axis=rng.choice("XYZ"), n=nn, d=dd, angle=a)])
         out.append([dict(axis=rng.choice("XYZ"), n=3, d=1, angle=a)])
         out.append([dict(axis=rng.choice("XYZ"), angle=a)])
+    # multiples of pi/16 (what NV hardware supports: the only float angles not refused with is_using_hardware)
+    for m in [1, 2, 3, 8, 16, 24, 31, 33, -1, -8]:
+        out.append([dict(axis=rng.choice("XYZ"), angle=m * math.pi / 16)])
+        out.append([dict(axis=rng.choice("XYZ"), n=3, d=1, angle=m * math.pi / 16)])
     # n, d only
     for (nn, dd) in ND_PAIRS + [(0, 0), (255, 0), (0, 255), (1, 255), (17, 4)]:
         out.append([dict(axis=rng.choice("XYZ"), n=nn, d=dd)])
